@@ -24,12 +24,12 @@ variable {K : Type} [Field K] [LinearOrder K] [IsStrictOrderedRing K]
 /-- One dimension, `slinear` / `lagrange2` / `lagrange3`: the kernel evaluated at `x + ε dx` on
 values `v i + ε dv i` is the kernel value plus `ε` times (the derivative formula written in the code
 times `dx`, plus the kernel of the `dv`).  Every bracket index, every point (also extrapolated). -/
-theorem C16_dx_exact_1d (m : Method) (hm : Lin3 m) (eps : K) (kdx : Kernel K)
+theorem C16_dx_exact_1d (m : Method) (hm : Lin3 m) (fix : Bool) (eps : K) (kdx : Kernel K)
     (hk : codeDx m = some kdx) (n : Nat) (g v dv : Nat → K) (idx : Nat) (x dx : K)
     (hn : m.minPts ≤ n) (hg : StrictOn n g) (hi : idx < n) :
-    m.kernel (Dual.const eps) n (fun i => Dual.const (g i)) (fun i => ⟨v i, dv i⟩) idx ⟨x, dx⟩ =
-      ⟨m.kernel eps n g v idx x, kdx n g v idx x * dx + m.kernel eps n g dv idx x⟩ := by
-  obtain ⟨_, _, _, kdx', hk', hd⟩ := lin3_facts m hm eps
+    m.kernel fix (Dual.const eps) n (fun i => Dual.const (g i)) (fun i => ⟨v i, dv i⟩) idx ⟨x, dx⟩ =
+      ⟨m.kernel fix eps n g v idx x, kdx n g v idx x * dx + m.kernel fix eps n g dv idx x⟩ := by
+  obtain ⟨_, _, _, kdx', hk', hd⟩ := lin3_facts m hm fix eps
   rw [hk] at hk'
   cases hk'
   exact hd n g v dv idx x dx hn hg hi
@@ -38,25 +38,25 @@ theorem C16_dx_exact_1d (m : Method) (hm : Lin3 m) (eps : K) (kdx : Kernel K)
 at the top, the kernel applied to the sub-table gradients below) is the `ε` part of the evaluator at
 `x + ε·dirs`, for every direction — for any in-range bracket indices, and for a fresh table
 (`dualDir`, the quantity the driver computes by running the evaluator on dual numbers). -/
-theorem C16_dx_exact (m : Method) (hm : Lin3 m) (eps : K) (kdx : Kernel K)
+theorem C16_dx_exact (m : Method) (hm : Lin3 m) (fix : Bool) (eps : K) (kdx : Kernel K)
     (hk : codeDx m = some kdx) (ds : List (Dim K)) (tbl : List Nat → K) (xs dirs : List K)
     (hg : GridsOK m.minPts ds) (hx : xs.length = ds.length) (hd : dirs.length = ds.length) :
     (∀ idxs, IdxOK ds idxs →
-      evalIdx (m.kernel (Dual.const eps)) (liftDims ds) idxs (fun is => Dual.const (tbl is))
+      evalIdx (m.kernel fix (Dual.const eps)) (liftDims ds) idxs (fun is => Dual.const (tbl is))
           (seed xs dirs) =
-        ⟨evalIdx (m.kernel eps) ds idxs tbl xs,
-         dotTo (gradIdx (m.kernel eps) kdx ds idxs tbl xs) dirs ds.length⟩) ∧
-    dualDir m eps ds tbl xs dirs =
-      dotTo (gradIdx (m.kernel eps) kdx ds (bracketAll ds xs) tbl xs) dirs ds.length := by
-  obtain ⟨ha, hs, _, kdx', hk', hdual⟩ := lin3_facts m hm eps
+        ⟨evalIdx (m.kernel fix eps) ds idxs tbl xs,
+         dotTo (gradIdx (m.kernel fix eps) kdx ds idxs tbl xs) dirs ds.length⟩) ∧
+    dualDir m fix eps ds tbl xs dirs =
+      dotTo (gradIdx (m.kernel fix eps) kdx ds (bracketAll ds xs) tbl xs) dirs ds.length := by
+  obtain ⟨ha, hs, _, kdx', hk', hdual⟩ := lin3_facts m hm fix eps
   rw [hk] at hk'
   cases hk'
   have h2 : 2 ≤ m.minPts := by cases m <;> simp [Method.minPts]
   have key : ∀ idxs, IdxOK ds idxs →
-      evalIdx (m.kernel (Dual.const eps)) (liftDims ds) idxs (fun is => Dual.const (tbl is))
+      evalIdx (m.kernel fix (Dual.const eps)) (liftDims ds) idxs (fun is => Dual.const (tbl is))
           (seed xs dirs) =
-        ⟨evalIdx (m.kernel eps) ds idxs tbl xs,
-         dotTo (gradIdx (m.kernel eps) kdx ds idxs tbl xs) dirs ds.length⟩ := by
+        ⟨evalIdx (m.kernel fix eps) ds idxs tbl xs,
+         dotTo (gradIdx (m.kernel fix eps) kdx ds idxs tbl xs) dirs ds.length⟩ := by
     intro idxs hi
     have := evalIdx_dual hdual ha hs ds idxs (fun is => Dual.const (tbl is)) xs dirs hg hi hx hd
     simp only [Dual.const_re, Dual.const_du] at this
@@ -71,15 +71,15 @@ theorem C16_dx_exact (m : Method) (hm : Lin3 m) (eps : K) (kdx : Kernel K)
 /-- `interp(a·V + W) = a·interp(V) + interp(W)` for `slinear`, `lagrange2`, `lagrange3`, in any
 number of dimensions, at every point (same bracket indices; a fresh table brackets by the point
 only). -/
-theorem C16_linear_in_values (m : Method) (hm : Lin3 m) (eps : K) (ds : List (Dim K))
+theorem C16_linear_in_values (m : Method) (hm : Lin3 m) (fix : Bool) (eps : K) (ds : List (Dim K))
     (V W : List Nat → K) (a : K) (xs : List K) :
-    (∀ idxs, evalIdx (m.kernel eps) ds idxs (fun is => a * V is + W is) xs =
-      a * evalIdx (m.kernel eps) ds idxs V xs + evalIdx (m.kernel eps) ds idxs W xs) ∧
-    evalND (m.kernel eps) ds (fun is => a * V is + W is) xs =
-      a * evalND (m.kernel eps) ds V xs + evalND (m.kernel eps) ds W xs := by
-  obtain ⟨ha, hs, _, _⟩ := lin3_facts m hm eps
-  have key : ∀ idxs, evalIdx (m.kernel eps) ds idxs (fun is => a * V is + W is) xs =
-      a * evalIdx (m.kernel eps) ds idxs V xs + evalIdx (m.kernel eps) ds idxs W xs := by
+    (∀ idxs, evalIdx (m.kernel fix eps) ds idxs (fun is => a * V is + W is) xs =
+      a * evalIdx (m.kernel fix eps) ds idxs V xs + evalIdx (m.kernel fix eps) ds idxs W xs) ∧
+    evalND (m.kernel fix eps) ds (fun is => a * V is + W is) xs =
+      a * evalND (m.kernel fix eps) ds V xs + evalND (m.kernel fix eps) ds W xs := by
+  obtain ⟨ha, hs, _, _⟩ := lin3_facts m hm fix eps
+  have key : ∀ idxs, evalIdx (m.kernel fix eps) ds idxs (fun is => a * V is + W is) xs =
+      a * evalIdx (m.kernel fix eps) ds idxs V xs + evalIdx (m.kernel fix eps) ds idxs W xs := by
     intro idxs
     rw [evalIdx_add ha ds idxs (fun is => a * V is) W xs, evalIdx_smul hs ds idxs a V xs]
   exact ⟨key, key _⟩
@@ -87,22 +87,22 @@ theorem C16_linear_in_values (m : Method) (hm : Lin3 m) (eps : K) (ds : List (Di
 /-- The value is the table contracted with the outer product of the per-axis unit-vector weights
 that `InterpND.training_gradients` returns (`wsum`): `interp = Σ d_dvalues · V`, and the weights do
 not depend on the table, so they are the exact derivative with respect to every table entry. -/
-theorem C16_dvalues_exact (m : Method) (hm : Lin3 m) (eps : K) (ds : List (Dim K))
+theorem C16_dvalues_exact (m : Method) (hm : Lin3 m) (fix : Bool) (eps : K) (ds : List (Dim K))
     (tbl : List Nat → K) (xs : List K) (hg : GridsOK m.minPts ds) (hx : xs.length = ds.length) :
     (∀ idxs, IdxOK ds idxs →
-      evalIdx (m.kernel eps) ds idxs tbl xs = wsum (m.kernel eps) ds idxs tbl xs) ∧
-    evalND (m.kernel eps) ds tbl xs = wsum (m.kernel eps) ds (bracketAll ds xs) tbl xs := by
-  obtain ⟨ha, hs, hl, _⟩ := lin3_facts m hm eps
+      evalIdx (m.kernel fix eps) ds idxs tbl xs = wsum (m.kernel fix eps) ds idxs tbl xs) ∧
+    evalND (m.kernel fix eps) ds tbl xs = wsum (m.kernel fix eps) ds (bracketAll ds xs) tbl xs := by
+  obtain ⟨ha, hs, hl, _⟩ := lin3_facts m hm fix eps
   have h2 : 2 ≤ m.minPts := by cases m <;> simp [Method.minPts]
   exact ⟨fun idxs hi => evalIdx_eq_wsum ha hs hl ds idxs tbl xs hg hi,
     evalIdx_eq_wsum ha hs hl ds _ tbl xs hg (bracketAll_idxOK h2 ds xs hg hx)⟩
 
 /-- One axis: the kernel value is `Σ_i w_i · v_i` with `w = trainWeights`. -/
-theorem C16_dvalues_exact_1d (m : Method) (hm : Lin3 m) (eps : K) (n : Nat) (g v : Nat → K)
+theorem C16_dvalues_exact_1d (m : Method) (hm : Lin3 m) (fix : Bool) (eps : K) (n : Nat) (g v : Nat → K)
     (idx : Nat) (x : K) (hn : m.minPts ≤ n) (hi : idx < n) :
-    m.kernel eps n g v idx x =
-      sumTo (fun i => (trainWeights (m.kernel eps) n g idx x).getD i 0 * v i) n := by
-  obtain ⟨ha, hs, hl, _⟩ := lin3_facts m hm eps
+    m.kernel fix eps n g v idx x =
+      sumTo (fun i => (trainWeights (m.kernel fix eps) n g idx x).getD i 0 * v i) n := by
+  obtain ⟨ha, hs, hl, _⟩ := lin3_facts m hm fix eps
   exact kern_eq_weights ha hs hl n g v idx x hn hi
 
 /-- Grid `[-3, -1, 0, 2, 5]`. -/
@@ -115,10 +115,10 @@ def w5 : Nat → Rat := fun i => [(0 : Rat), 0, 4, 0, 0].getD i 0
 Akima's own analytic `d_dvalues` instead.  It is still homogeneous of degree one, so
 `value = Σ d_dvalues · V` holds (checked on the real code by the harness). -/
 theorem C16_akima_not_additive :
-    akimaK (1 / 10 ^ 30 : Rat) 5 g5 (fun i => u5 i + w5 i) 1 (-1 / 2) ≠
-      akimaK (1 / 10 ^ 30 : Rat) 5 g5 u5 1 (-1 / 2) + akimaK (1 / 10 ^ 30 : Rat) 5 g5 w5 1 (-1 / 2) ∧
-    akimaK (1 / 10 ^ 30 : Rat) 5 g5 (fun i => 3 * u5 i) 1 (-1 / 2) =
-      3 * akimaK (1 / 10 ^ 30 : Rat) 5 g5 u5 1 (-1 / 2) := by decide +kernel
+    akimaK false (1 / 10 ^ 30 : Rat) 5 g5 (fun i => u5 i + w5 i) 1 (-1 / 2) ≠
+      akimaK false (1 / 10 ^ 30 : Rat) 5 g5 u5 1 (-1 / 2) + akimaK false (1 / 10 ^ 30 : Rat) 5 g5 w5 1 (-1 / 2) ∧
+    akimaK false (1 / 10 ^ 30 : Rat) 5 g5 (fun i => 3 * u5 i) 1 (-1 / 2) =
+      3 * akimaK false (1 / 10 ^ 30 : Rat) 5 g5 u5 1 (-1 / 2) := by decide +kernel
 
 /-! ## Non-vacuity -/
 
@@ -131,13 +131,13 @@ dual derivative is a genuine number. -/
 example :
     let ds : List (Nat × (Nat → Rat)) := [(5, g5), (5, g5)]
     let tbl : List Nat → Rat := fun is => u5 (is.getD 0 0) * w5 (is.getD 1 0) + u5 (is.getD 1 0)
-    dualDx Method.lagrange2 (1 / 10 ^ 30) ds tbl [-1 / 2, 1] 0 =
+    dualDx Method.lagrange2 false (1 / 10 ^ 30) ds tbl [-1 / 2, 1] 0 =
       (gradIdx lagrange2K lagrange2Dx ds (bracketAll ds [-1 / 2, 1]) tbl [-1 / 2, 1]).getD 0 0 ∧
-    dualDx Method.lagrange2 (1 / 10 ^ 30) ds tbl [-1 / 2, 1] 1 =
+    dualDx Method.lagrange2 false (1 / 10 ^ 30) ds tbl [-1 / 2, 1] 1 =
       (gradIdx lagrange2K lagrange2Dx ds (bracketAll ds [-1 / 2, 1]) tbl [-1 / 2, 1]).getD 1 0 ∧
     evalND lagrange2K ds tbl [-1 / 2, 1] = wsum lagrange2K ds (bracketAll ds [-1 / 2, 1]) tbl [-1 / 2, 1] ∧
-    dualDx Method.lagrange2 (1 / 10 ^ 30) ds tbl [-1 / 2, 1] 0 ≠ 0 ∧
-    dualDx Method.akima (1 / 10 ^ 30) [(5, g5)] (fun is => u5 (is.getD 0 0)) [-1 / 2] 0 ≠ 0 := by
+    dualDx Method.lagrange2 false (1 / 10 ^ 30) ds tbl [-1 / 2, 1] 0 ≠ 0 ∧
+    dualDx Method.akima false (1 / 10 ^ 30) [(5, g5)] (fun is => u5 (is.getD 0 0)) [-1 / 2] 0 ≠ 0 := by
   decide +kernel
 
 end OMV.C16
